@@ -4,10 +4,14 @@
    What these theorems are about: the MODEL of a randomised step (Model/RandProg.v), a program that
    can obtain randomness only by asking its generator.  They say that such a step is a function of
    (inputs, answers consumed), whatever serves the answers, and that it frames out any global
-   generator state.  That the IMPLEMENTATION is such a step (makes no hidden draws) is not proved;
-   it is checked at run time by harness/c18.py (trace conformance + trapping), level `other`. *)
+   generator state.  That the IMPLEMENTATION is such a step (makes no hidden draws) is not proved
+   in general; it is checked at run time by harness/c18.py (trace conformance + trapping), level `other`.
+   For FOUR functions it is a theorem (last part of this file, `C18_model_is_source_*`): their source is
+   re-translated on every run into a program of this very type (Generated/SrcRand.v), in which a request can
+   only come from a call on the function's own generator argument, and the hand-written program is proved
+   equal to the translation. *)
 From Coq Require Import ZArith List Bool.
-From Batchie Require Import Lib.Sexp Model.RandProg Proofs.C18RandProg.
+From Batchie Require Import Lib.Sexp Lib.PyRt Model.RandProg Proofs.C18RandProg Generated.SrcRand Proofs.C18Source.
 Import ListNotations.
 Open Scope Z_scope.
 
@@ -158,3 +162,218 @@ Example C18_bind_example :
   run (bind (random_scorer_prog [3]) (fun x => bind (random_scorer_prog [1]) (fun y => Ret (x ++ y)))) [[50]; [70]]
   = Ok ([(3, 50); (1, 70)], [RRandom; RRandom]).
 Proof. vm_compute. reflexivity. Qed.
+
+(* ---------------------------------------------------------------- source-translation links
+   Generated/SrcRand.v is the translation (harness/py2gal.py, configurations C18_* of harness/src_functions.py) of
+     RandomScorer.score, create_random_holdout, create_plate_balanced_holdout_set_among_masked_plates (whole functions)
+     and of the statement run of dbal_fast_gauss_scoring_vectorized that sub-samples the theta triples
+   into programs of type [rprog T] = [prog req ans (result T)].  The translator is fail-closed: the only primitives that
+   contain a request are the three calls on the function's own generator argument (rng.random(), rng.choice(array, k,
+   replace=False), rng.choice(n, size=k, replace=False)); a call of a module-level numpy.random function, of an
+   argument-less default_rng(), or any other undeclared call inside such a function is refused and these theorems are not
+   re-established.  Being of type [prog], the translated source is subject to every theorem above (explicit stream,
+   exec = replay, frame, two interleaved runs) directly; the links below say in addition that it is the hand-written
+   program the trace theorems and the trace conformance are about.
+   [prog_eq_on okA p q]: same requests in the same order and the same output, for all answers admitted by okA. *)
+
+(* what program equality means for replay and for execution against a generator *)
+Theorem C18_prog_eq_replay : forall (Req Ans Out : Type) (p q : prog Req Ans Out),
+  prog_eq_on any_answer p q -> forall answers, run p answers = run q answers.
+Proof. exact peq_run_any. Qed.
+Print Assumptions C18_prog_eq_replay.
+
+Theorem C18_prog_eq_replay_valid : forall (Req Ans : Type) (okA : Req -> Ans -> bool) (Out : Type) (p q : prog Req Ans Out),
+  prog_eq_on okA p q ->
+  forall answers o rs, run p answers = Ok (o, rs) -> all_ok okA rs answers = true -> run q answers = Ok (o, rs).
+Proof. exact (@peq_run). Qed.
+Print Assumptions C18_prog_eq_replay_valid.
+
+Theorem C18_prog_eq_exec : forall (Req Ans : Type) (okA : Req -> Ans -> bool) (Out S : Type) (gen : S -> Req -> Ans * S)
+                                  (p q : prog Req Ans Out),
+  (forall s r, okA r (fst (gen s r)) = true) -> prog_eq_on okA p q -> forall s, exec gen p s = exec gen q s.
+Proof. exact (@peq_exec). Qed.
+Print Assumptions C18_prog_eq_exec.
+
+(* RandomScorer.score; [plates] = the keys of the dict in iteration order, pairwise distinct in every reachable call *)
+Theorem C18_model_is_source_random_scorer : forall plates, NoDup plates ->
+  prog_eq_on any_answer (src_random_scorer_score plates) (lift_ok (random_scorer_prog plates)).
+Proof. exact src_random_scorer_is_model. Qed.
+Print Assumptions C18_model_is_source_random_scorer.
+
+(* create_random_holdout, for ANY screen type, size function and meaning of the two Screen(...) constructions;
+   answers restricted to numpy's contract (rng.choice returns k distinct elements of its pool) *)
+Theorem C18_model_is_source_random_holdout :
+  forall (Scr : Type) (scr_size : Scr -> Z) (mk_keep mk_hold : Scr -> list bool -> result Scr) num den screen,
+  prog_eq_on valid_answer
+    (src_random_holdout Scr scr_size mk_keep mk_hold num den screen)
+    (if (num <? 0) || (den <? num) then Ret (Err 5)
+     else bind (random_holdout_prog (scr_size screen) num den)
+               (fun held => Ret (holdout_finish mk_keep mk_hold screen (mask_of (scr_size screen) held)))).
+Proof. exact src_random_holdout_is_model. Qed.
+Print Assumptions C18_model_is_source_random_holdout.
+
+(* create_plate_balanced_holdout_set_among_masked_plates.  Hypotheses = facts about every reachable screen (every row
+   lies on exactly one plate): the plates' index lists have screen.size entries in all, each a row number *)
+Theorem C18_model_is_source_balanced_holdout :
+  forall (Scr : Type) (scr_size : Scr -> Z) (scr_plates : Scr -> list plate_t)
+         (mk_keep mk_hold : Scr -> list bool -> result Scr) num den screen,
+  scr_size screen = zlen (concat (map fst (scr_plates screen))) ->
+  (forall pl i, In pl (scr_plates screen) -> In i (fst pl) -> 0 <= i < scr_size screen) ->
+  prog_eq_on valid_answer
+    (src_balanced_holdout_prog Scr scr_size scr_plates mk_keep mk_hold num den screen)
+    (if (num <? 0) || (den <? num) then Ret (Err 5)
+     else bind (balanced_holdout_prog (scr_plates screen) num den)
+               (fun held => Ret (holdout_finish mk_keep mk_hold screen (mask_of (scr_size screen) held)))).
+Proof. exact src_balanced_holdout_is_model. Qed.
+Print Assumptions C18_model_is_source_balanced_holdout.
+
+(* the triple sub-sampling of dbal_fast_gauss_scoring_vectorized: the same term *)
+Theorem C18_model_is_source_dbal_subsample : forall n_thetas max_combos,
+  src_dbal_subsample n_thetas max_combos = dbal_subsample_prog n_thetas max_combos.
+Proof. exact src_dbal_subsample_is_model. Qed.
+Print Assumptions C18_model_is_source_dbal_subsample.
+
+(* FixedSizeSmoother._smooth_plates (whole method), for ANY screen type, size / plates functions and meaning of
+   screen.subset(v).to_screen(); all answers *)
+Theorem C18_model_is_source_fixed_size_smoother :
+  forall (Scr : Type) (scr_size : Scr -> Z) (scr_plates : Scr -> list (list bool)) (mk_subset : Scr -> list bool -> result Scr)
+         plate_size screen,
+  prog_eq_on any_answer
+    (src_fixed_size_smooth Scr scr_size scr_plates mk_subset plate_size screen)
+    (bind (size_smoother_prog (scr_plates screen) (scr_size screen) plate_size) (fun v => Ret (mk_subset screen v))).
+Proof. exact src_fixed_size_is_model. Qed.
+Print Assumptions C18_model_is_source_fixed_size_smoother.
+
+(* OptimalSizeSmoother._smooth_plates (whole method); the three numpy statements that pick the size are ANY request-free
+   function [opt_size] of the list of plate sizes, possibly raising *)
+Theorem C18_model_is_source_optimal_size_smoother :
+  forall (Scr : Type) (scr_size : Scr -> Z) (scr_plates : Scr -> list (list bool)) (mk_subset : Scr -> list bool -> result Scr)
+         (opt_size : list Z -> result Z) screen,
+  prog_eq_on any_answer
+    (src_optimal_size_smooth Scr scr_size scr_plates mk_subset opt_size screen)
+    (match opt_size (map count_true (scr_plates screen)) with
+     | Err e => Ret (Err e)
+     | Ok t => bind (size_smoother_prog (scr_plates screen) (scr_size screen) t) (fun v => Ret (mk_subset screen v))
+     end).
+Proof. exact src_optimal_size_is_model. Qed.
+Print Assumptions C18_model_is_source_optimal_size_smoother.
+
+(* PlatePermutationPlateGenerator._generate_plates (whole method): everything around its ONE request is request-free, for ANY
+   screen type and meaning of screen.subset(v).to_screen(), of the Screen(...) construction and of a.combine(b) *)
+Theorem C18_model_is_source_plate_permutation :
+  forall (Scr : Type) (scr_size : Scr -> Z) (scr_plate_names : Scr -> list Z) (mk_subset : Scr -> list bool -> result Scr)
+         (mk_renamed : Scr -> list Z -> result Scr) (mk_combine : Scr -> Scr -> result Scr) force screen,
+  prog_eq_on any_answer
+    (src_plate_permutation Scr scr_size scr_plate_names mk_subset mk_renamed mk_combine force screen)
+    (match pp_split mk_subset screen (pp_selection force (scr_plate_names screen) (scr_size screen)) with
+     | Err e => Ret (Err e)
+     | Ok (tp, np) => bind (plate_permutation_prog (scr_plate_names tp))
+                           (fun new_names => Ret (pp_finish mk_renamed mk_combine tp np new_names))
+     end).
+Proof. exact src_plate_permutation_is_model. Qed.
+Print Assumptions C18_model_is_source_plate_permutation.
+
+(* SampleSegregatingPermutationPlateGenerator._generate_plates (whole method) *)
+Theorem C18_model_is_source_sample_segregating :
+  forall (Scr : Type) (scr_size : Scr -> Z) (scr_sample_ids : Scr -> list Z) (scr_sample_rows : Scr -> Z -> list Z)
+         (mk_labelled : Scr -> list Z -> result Scr) max_plate_size screen,
+  prog_eq_on any_answer
+    (src_sample_segregating Scr scr_size scr_sample_ids scr_sample_rows mk_labelled max_plate_size screen)
+    (bind (sample_seg_prog (map (scr_sample_rows screen) (scr_sample_ids screen)) (scr_size screen) max_plate_size)
+          (fun r => Ret (match r with Ok labels => mk_labelled screen labels | Err e => Err e end))).
+Proof. exact src_sample_segregating_is_model. Qed.
+Print Assumptions C18_model_is_source_sample_segregating.
+
+(* the trace theorems, now about the translated source *)
+Theorem C18_source_fixed_size_smoother_trace :
+  forall (Scr : Type) (scr_size : Scr -> Z) (scr_plates : Scr -> list (list bool)) (mk_subset : Scr -> list bool -> result Scr)
+         plate_size screen answers out reqs,
+  run (src_fixed_size_smooth Scr scr_size scr_plates mk_subset plate_size screen) answers = Ok (out, reqs) ->
+  reqs = map (size_smoother_req (scr_size screen) plate_size) (filter (fun v => plate_size <? count_true v) (scr_plates screen)).
+Proof. exact src_fixed_size_trace. Qed.
+Print Assumptions C18_source_fixed_size_smoother_trace.
+
+Theorem C18_source_random_scorer_trace : forall plates answers, NoDup plates ->
+  (length plates <= length answers)%nat ->
+  run (src_random_scorer_score plates) answers
+  = Ok (Ok (map (fun xa => (fst xa, hd 0 (snd xa))) (combine plates answers)), map (fun _ => RRandom) plates).
+Proof. exact src_random_scorer_trace. Qed.
+Print Assumptions C18_source_random_scorer_trace.
+
+Theorem C18_source_balanced_holdout_trace :
+  forall (Scr : Type) (scr_size : Scr -> Z) (scr_plates : Scr -> list plate_t)
+         (mk_keep mk_hold : Scr -> list bool -> result Scr) num den screen answers out reqs,
+  scr_size screen = zlen (concat (map fst (scr_plates screen))) ->
+  (forall pl i, In pl (scr_plates screen) -> In i (fst pl) -> 0 <= i < scr_size screen) ->
+  (num <? 0) || (den <? num) = false ->
+  run (src_balanced_holdout_prog Scr scr_size scr_plates mk_keep mk_hold num den screen) answers = Ok (out, reqs) ->
+  all_ok valid_answer reqs answers = true ->
+  reqs = map (balanced_holdout_req num den) (filter (fun pl => negb (snd pl)) (scr_plates screen)).
+Proof. exact src_balanced_holdout_trace. Qed.
+Print Assumptions C18_source_balanced_holdout_trace.
+
+(* non-vacuity: the translations compute, and agree with the hand-written programs' examples above *)
+Example C18_source_random_scorer_example :
+  run (src_random_scorer_score [3; 1]) [[50]; [70]; [90]] = Ok (Ok [(3, 50); (1, 70)], [RRandom; RRandom]).
+Proof. vm_compute. reflexivity. Qed.
+
+(* a toy screen type: the screen is its observation mask; the kept / held screens are the vectors themselves *)
+Example C18_source_random_holdout_example :
+  run (src_random_holdout (list bool) zlen (fun _ v => Ok (map negb v)) (fun _ v => Ok v) 1 2 [false; false; false; false; false])
+      [[4; 0; 2]]
+  = Ok (Ok ([false; true; false; true; false], [true; false; true; false; true]), [RChoice [0; 1; 2; 3; 4] 3 false])
+  /\ mask_of 5 [0; 2; 4] = [true; false; true; false; true].
+Proof. vm_compute. split; reflexivity. Qed.
+(* an answer outside numpy's contract (row 7 of 5) is the IndexError of the index-array store, a fraction above 1 the ValueError *)
+Example C18_source_random_holdout_raises_example :
+  run (src_random_holdout (list bool) zlen (fun _ v => Ok (map negb v)) (fun _ v => Ok v) 1 2 [false; false; false; false; false])
+      [[7; 0; 2]] = Ok (Err 98, [RChoice [0; 1; 2; 3; 4] 3 false])
+  /\ run (src_random_holdout (list bool) zlen (fun _ v => Ok (map negb v)) (fun _ v => Ok v) 3 2 [false]) [] = Ok (Err 5, []).
+Proof. vm_compute. split; reflexivity. Qed.
+
+(* the hypotheses of the balanced link are satisfiable: 6 rows on the plates {0,2}, {1} (observed), {3,4,5} *)
+Example C18_source_balanced_holdout_example :
+  let plates := [([0; 2], false); ([1], true); ([3; 4; 5], false)] in
+  run (src_balanced_holdout_prog unit (fun _ => 6) (fun _ => plates) (fun _ v => Ok tt) (fun _ v => if nth 2 v false then Ok tt else Err 7)
+                                 1 2 tt) [[2]; [5; 3]]
+  = Ok (Ok (tt, tt), [RChoice [0; 2] 1 false; RChoice [3; 4; 5] 2 false])
+  /\ 6 = zlen (concat (map fst plates)).
+Proof. vm_compute. split; reflexivity. Qed.
+
+Example C18_source_dbal_subsample_example :
+  run (src_dbal_subsample 8 30) [[1; 2; 3]] = Ok (Ok [1; 2; 3], [RChoiceN 56 30 false])
+  /\ run (src_dbal_subsample 2 30) [] = Ok (Err 4, []).
+Proof. vm_compute. split; reflexivity. Qed.
+
+(* 6 rows; plates {0,1,2}, {3,4}, {5}; size 2: the first is sub-sampled to the answer, the second kept, the third dropped *)
+Example C18_source_fixed_size_example :
+  let plates := [[true; true; true; false; false; false]; [false; false; false; true; true; false];
+                 [false; false; false; false; false; true]] in
+  run (src_fixed_size_smooth unit (fun _ => 6) (fun _ => plates) (fun _ v => if nth 5 v false then Err 7 else Ok tt) 2 tt) [[2; 0]]
+  = Ok (Ok tt, [RChoice [0; 1; 2] 2 false])
+  /\ run (size_smoother_prog plates 6 2) [[2; 0]] = Ok ([true; false; true; true; true; false], [RChoice [0; 1; 2] 2 false]).
+Proof. vm_compute. split; reflexivity. Qed.
+Example C18_source_optimal_size_example :
+  let plates := [[true; true; true; false; false; false]; [false; false; false; true; true; false]] in
+  run (src_optimal_size_smooth unit (fun _ => 6) (fun _ => plates) (fun _ _ => Ok tt) (fun sizes => Ok (fold_right Z.min 9 sizes)) tt) [[1; 2]]
+  = Ok (Ok tt, [RChoice [0; 1; 2] 2 false])
+  /\ run (src_optimal_size_smooth unit (fun _ => 6) (fun _ => plates) (fun _ _ => Ok tt) (fun _ => Err 3) tt) [] = Ok (Err 3, []).
+Proof. vm_compute. split; reflexivity. Qed.
+
+(* plate names 7 7 8 9 with 9 force-included: the names 7 7 8 of the first three rows are permuted *)
+Example C18_source_plate_permutation_example :
+  run (src_plate_permutation (list Z) zlen (fun s => s) (fun s v => Ok (map snd (filter fst (combine v s))))
+                             (fun _ new_names => Ok new_names) (fun a b => Ok (a ++ b)) (Some [9]) [7; 7; 8; 9]) [[8; 7; 7]]
+  = Ok (Ok [8; 7; 7; 9], [RPermutation [7; 7; 8]])
+  /\ valid_answer (RPermutation [7; 7; 8]) [8; 7; 7] = true /\ valid_answer (RPermutation [7; 7; 8]) [8; 8; 7] = false.
+Proof. vm_compute. repeat split; reflexivity. Qed.
+
+(* samples 0 (rows 0 2 4 5 6) and 1 (rows 1 3), at most 2 rows per plate: sample 0 is permuted and split 2 + 2 + 1 *)
+Example C18_source_sample_segregating_example :
+  run (src_sample_segregating unit (fun _ => 7) (fun _ => [0; 1]) (fun _ i => if i =? 0 then [0; 2; 4; 5; 6] else [1; 3])
+                              (fun _ labels => if nth 6 labels 0 =? 1 then Ok tt else Err 7) 2 tt) [[5; 0; 6; 2; 4]]
+  = Ok (Ok tt, [RPermutation [0; 2; 4; 5; 6]])
+  /\ run (sample_seg_prog [[0; 2; 4; 5; 6]; [1; 3]] 7 2) [[5; 0; 6; 2; 4]]
+     = Ok (Ok [0; 3; 1; 3; 2; 0; 1], [RPermutation [0; 2; 4; 5; 6]])
+  /\ run (sample_seg_prog [[0; 2; 4]] 3 0) [] = Ok (Err 94, []).
+Proof. vm_compute. repeat split; reflexivity. Qed.
